@@ -204,7 +204,11 @@ func (e *Engine) VerifyFunc(fn *ssa.Function, spec *FuncSpec, lockMode bool) (re
 		fx.axioms = append(fx.axioms, fx.specTerm(ax.X, aenv, fx.entry, fx.entry, aenv.pkg))
 	}
 	if spec != nil {
-		for _, r := range spec.Requires {
+		reqs := spec.Requires
+		if lockMode {
+			reqs = append(append([]*Clause{}, reqs...), spec.LockRequires...)
+		}
+		for _, r := range reqs {
 			fx.ctx.Assert(fx.specTerm(r.X, env, st, fx.entry, spec.Pkg))
 		}
 		for _, o := range spec.Observe {
@@ -242,7 +246,11 @@ func (e *Engine) VerifyFunc(fn *ssa.Function, spec *FuncSpec, lockMode bool) (re
 		renv.nowOld = fx.nowEntry
 		if spec != nil {
 			renv.pkg = spec.Pkg
-			for i, en := range spec.Ensures {
+			enss := spec.Ensures
+			if lockMode {
+				enss = append(append([]*Clause{}, enss...), spec.LockEnsures...)
+			}
+			for i, en := range enss {
 				t := fx.specTerm(en.X, renv, r.st, fx.entry, spec.Pkg)
 				name := en.Name
 				if name == "" {
